@@ -89,7 +89,8 @@ def exec (e : Env) : Nat → Sk → St → Option St
         | none => none
         | some st2 => exec e f (.whileIter u c b) st2
   | f + 1, .forW n b, st =>
-      if cancelled e st then some (halt e st) else exec e f (.forItems n b) (tick e st)
+      -- stmt's `r.exit = exitStatus{}`: an empty item list leaves status 0
+      if cancelled e st then some (halt e st) else exec e f (.forItems n b) (tick e { st with ok := true })
   | _ + 1, .forItems 0 _, st => some st
   | f + 1, .forItems (k + 1) b, st =>
       -- setVarString + trace line, no stop check here: the body's statements check
